@@ -187,7 +187,7 @@ else:
                         not fl.tab.equal(e.value, pe['op']):
                     why.append('stores %s' % unparse(e.node))
             R.check('2.once', 'DOM', site, 'an opacity is stored under its moleculeName only if that name is not loaded yet',
-                    len(sts) == 2 and not why, key='; '.join(why), detail='; '.join(why), loc=f.loc())
+                    len(sts) >= 1 and not why, key='; '.join(why) or 'no store', detail='; '.join(why) or 'nothing is stored', loc=f.loc())
     # ---- 3. clear-after-set
     clear_after_set(ix, R)
     from rules.common import cache_state_cleared
